@@ -151,7 +151,10 @@ fn replay_inner(path: &str) {
         }
     };
     let mut scratch = run::Scratch::new();
-    let (verdict, report) = worker::run_case(&mut scratch, &file.case, 0);
+    let Some((verdict, report)) = worker::run_case(&mut scratch, &file.case, 0) else {
+        eprintln!("harness error: the oracle panicked while replaying {path}");
+        std::process::exit(2)
+    };
     match &verdict {
         case::Verdict::Violation { class, detail } => {
             println!("RESULT violation {class}");
